@@ -20,7 +20,7 @@ import z3
 from .. import ops
 from ..objects import Builtin, Ext
 from ..values import PyExc, Sym, Tensor, Unsupported, mk, to_z3
-from .arrays import SArr, count, notin_mask, zint
+from .arrays import SArr, assign_in_place, count, notin_mask, zint
 from .ase_model import CellModel
 
 
@@ -63,7 +63,11 @@ class AtomsHeap(Ext):
                 I.path.assume(n.t >= 0)
             arrays = {name: SArr.base(I, f"{tag}.{name}", n, row, dt) for name, row, dt in array_specs}
         self.arrays = arrays
-        self.cell = cell if cell is not None else CellModel(Tensor((3, 3), [I.path.fresh(f"{tag}.cell{i}") for i in range(9)]))
+        if cell is None:
+            vol = I.path.fresh(f"{tag}.volume")
+            I.path.assume(vol.t > 0)
+            cell = CellModel(Tensor((3, 3), [I.path.fresh(f"{tag}.cell{i}") for i in range(9)]), volume=vol)
+        self.cell = cell
         self.constraints = list(constraints)
         self.calc = calc
         self.log = []
@@ -104,15 +108,22 @@ class AtomsHeap(Ext):
             def sp(I_, a, k):
                 flag = k.get("apply_constraint", a[1] if len(a) > 1 else True)
                 self.log.append(("set_positions", flag))
-                self._set_positions(I_, a[0])
+                if isinstance(flag, Sym):
+                    flag = I_.path.branch(flag.t)
+                self._set_positions(I_, a[0], constrained=bool(flag))
             return Builtin("set_positions", sp)
+        if name == "set_momenta":
+            def smo(I_, a, k):
+                self.log.append(("set_momenta", k.get("apply_constraint", a[1] if len(a) > 1 else True)))
+                self._store("momenta", a[0])
+            return Builtin("set_momenta", smo)
         if name == "set_array":
             def sa(I_, a, k):
                 self.log.append(("set_array", a[0]))
                 if a[1] is None:
                     self.arrays.pop(a[0], None)
                 else:
-                    self.arrays[a[0]] = a[1]
+                    self._store(a[0], a[1])
             return Builtin("set_array", sa)
         if name == "get_masses":
             def gm(I_, a, k):
@@ -131,9 +142,25 @@ class AtomsHeap(Ext):
                 c = a[0]
                 self.log.append(("set_cell", k.get("scale_atoms", False), k.get("apply_constraint", True)))
                 arr = c.array if isinstance(c, CellModel) else c
-                if k.get("scale_atoms", a[1] if len(a) > 1 else False) not in (False,):
-                    raise Unsupported("set_cell(scale_atoms=True) in the heap view")
-                self.cell = CellModel(arr.copy())
+                scale = k.get("scale_atoms", a[1] if len(a) > 1 else False)
+                if scale is not False:
+                    # ASE: positions <- positions @ solve(old_cell, new_cell); M is the uninterpreted 3x3 solution
+                    def scaled(I__, row, old=self.cell.array, new=arr):
+                        M = I__.path.ghost.setdefault("cell_scaling", {}).get((id(old), id(new)))
+                        if M is None:
+                            M = Tensor((3, 3), [I__.path.fresh(f"scaleM{len(I__.path.ghost['cell_scaling'])}_{i}") for i in range(9)])
+                            I__.path.ghost["cell_scaling"][(id(old), id(new))] = M
+                        return ops.matmul(I__, row, M)
+                    pos_old = self.arrays["positions"]
+                    sc = SArr(("map", scaled, (pos_old,)), pos_old.n, pos_old.row, pos_old.dtype)
+                    if isinstance(scale, Sym):
+                        from .arrays import ite
+                        self.arrays["positions"] = SArr(("map", lambda I__, a_, b_, s=scale: ite(I__, s, a_, b_), (sc, pos_old)), pos_old.n, pos_old.row, pos_old.dtype)
+                    else:
+                        self.arrays["positions"] = sc
+                vol = I_.path.fresh("cell_volume")
+                I_.path.assume(vol.t > 0)            # TRUSTED: cells handed to set_cell are non-degenerate (user operations)
+                self.cell = CellModel(arr.copy(), volume=vol)
             return Builtin("set_cell", sc)
         if name == "extend":
             return Builtin("extend", lambda I_, a, k: self._extend(I_, a[0]))
@@ -141,6 +168,10 @@ class AtomsHeap(Ext):
             return Builtin("copy", lambda I_, a, k: self._copy(I_))
         if name == "calc":
             return self.calc
+        if name == "numbers":
+            return self.arrays["numbers"]
+        if name == "pbc":
+            return ("pbc-of", self.tag.split("'")[0])
         if name == "constraints":
             return self.constraints
         if name == "__len__":
@@ -153,11 +184,27 @@ class AtomsHeap(Ext):
             return Builtin(name, lambda I_, a, k: self.calc.evaluate(I_, self, name))
         raise Unsupported(f"Atoms.{name} (heap view)")
 
-    def _set_positions(self, I, v):
-        if isinstance(v, SArr):
-            self.arrays["positions"] = v
+    def _store(self, name, value):
+        """ase.Atoms.set_array: an existing array of the same shape is overwritten IN PLACE (b[:] = a),
+        otherwise a copy is stored"""
+        cur = self.arrays.get(name)
+        if cur is not None and isinstance(value, SArr) and cur.row == value.row:
+            if cur is not value:
+                assign_in_place(cur, value)
         else:
+            self.arrays[name] = value.like(value.term) if isinstance(value, SArr) else value
+
+    def _set_positions(self, I, v, constrained=False):
+        if not isinstance(v, SArr):
             raise Unsupported("positions set to a non array value")
+        fixed = getattr(self, "fixed_mask", None)
+        if constrained and fixed is not None and any(c.name == "FixAtoms" for c in self.constraints):
+            # ASE FixAtoms.adjust_positions: fixed rows keep their CURRENT position
+            from .arrays import ite
+            old = self.arrays["positions"]
+            self._store("positions", SArr(("map", lambda I_, f, o, nw: ite(I_, f, o, nw), (fixed, old, v)), old.n, old.row, old.dtype))
+        else:
+            self._store("positions", v)
 
     def py_setattr(self, I, name, value):
         if name == "positions":
@@ -166,7 +213,7 @@ class AtomsHeap(Ext):
             return
         if name == "cell":
             self.log.append(("cell=",))
-            self.cell = CellModel((value.array if isinstance(value, CellModel) else value).copy())
+            self.cell = CellModel((value.array if isinstance(value, CellModel) else value).copy(), volume=value._volume if isinstance(value, CellModel) else None)
             return
         if name == "calc":
             self.calc = value
@@ -179,6 +226,12 @@ class AtomsHeap(Ext):
             raise Unsupported("extend with a non Atoms value")
         n, m = self.n(), other.n()
         self.log.append(("extend", other))
+        if isinstance(n, int) and n == 0:
+            # extending an empty Atoms: the result has exactly other's rows (no concat node, so the
+            # scatter/gather inverse pairs still see the gather)
+            self.arrays.clear()
+            self.arrays.update({k: v.like(v.term) for k, v in other.arrays.items()})
+            return
         new = {}
         for name, a in self.arrays.items():
             b = other.arrays.get(name)
